@@ -165,7 +165,8 @@ def run(chk):
                 chk.violation(f"C03|{name}|large|{'spurious' if bad else ('missing' if missing else 'repeated')}",
                               f"{name} on {n} queries x {n} references: {len(bad)} reported triplets are not true hits, {len(missing)} planted hits "
                               f"are missing; e.g. {ex}", {"n": n, "example": ex})
-    if not chk.skip_large("the 50 021 x 50 021 lookup"):
+    probe_r, probe_q = gen.planted(rng, 3000)[0], gen.planted(rng, 3000)[0]
+    if not chk.skip_large("the 50 021 x 50 021 lookup", probe=lambda: nn.symdel(probe_r, max_edits=1, seqs2=probe_q)):
         large_lookup(50021 if not thorough else 70001)
     # all strings of a pool against themselves
     for alpha, pool in pools:
